@@ -1209,6 +1209,15 @@ func genC02(c *Ctx) {
 			// decimal exponents around the parser's bound of 1000
 			n.Exp = &gexp{Up: r.IntN(2) == 0, Sign: r.IntN(3), Digits: fmt.Sprint(994 + r.IntN(12))}
 			c.Count("num.amount.exponent-near-bound")
+		} else if r.IntN(40) == 0 {
+			// exponents around the borders of int32 / int64: the parser's range test and
+			// decimal.NewFromString's own must agree with the model on both sides of each border
+			// (with one or two decimals the effective exponent crosses the border of the written one)
+			n.Exp = &gexp{Up: r.IntN(2) == 0, Sign: r.IntN(3), Digits: pick(r, []string{
+				"2147483645", "2147483646", "2147483647", "2147483648", "2147483649", "2147483650",
+				"4294967295", "4294967296", "4294967297", "9223372036854775807", "9223372036854775808",
+				"18446744073709551616", "1073741824", "32767", "32768", "65536"})}
+			c.Count("num.amount.exponent-int-border")
 		}
 		c.Emit("num.amount", numAmountCase(n))
 	}
